@@ -119,3 +119,18 @@ func (p *Prog) LitPos(l Lit) string {
 	}
 	return "-"
 }
+
+// LoadPos gives a position near an EvLoad event (loads carry no instruction): the next positioned event.
+func (p *Prog) LoadPos(path *Path, i int) string {
+	for k := i; k < len(path.Events); k++ {
+		if in := path.Events[k].Instr; in != nil && in.Pos().IsValid() {
+			return p.Pos(in.Pos())
+		}
+	}
+	for k := i; k >= 0; k-- {
+		if in := path.Events[k].Instr; in != nil && in.Pos().IsValid() {
+			return p.Pos(in.Pos())
+		}
+	}
+	return "-"
+}
